@@ -229,6 +229,12 @@ def placed_sources(h: Sequence[Tuple[int, ...]], assign: Sequence[int], style: s
         # a valid import cycle: the module of the base classes imports (as a module) the module of the derived classes first
         first, last = MODNAMES[min(assign)], MODNAMES[max(assign)]
         srcs[first] = f'from pk import {last} as later_\n' + srcs[first]
+    if style.endswith('+chain'):
+        # a chain of import cycles: every module first imports (plainly) the next one, so that analysing the module of the base classes
+        # analyses the modules of the derived classes while their bases do not exist yet - bases are resolved in a later pass, several levels deep
+        used = [MODNAMES[m] for m in sorted(set(assign))]
+        for a, b_ in zip(used, used[1:]):
+            srcs[a] = f'import pk.{b_}\n' + srcs[a]
     return srcs
 
 
@@ -359,6 +365,10 @@ def jobs(tier: str) -> Iterable[Tuple[str, Any]]:
     for style in ('from', 'attr', 'star', 'from+cycle', 'attr+cycle'):
         yield ('placed:classes<=3x2mods', ('placed', 3, 2, style))
         yield ('placed:classes<=4x2mods', ('placed', 4, 2, style))
+    for style in ('from+chain', 'attr+chain'):
+        yield ('placed:classes<=3x3mods:chain', ('placed', 3, 3, style))
+        yield ('placed:classes<=4x3mods:chain', ('placed', 4, 3, style))
+        yield ('placed:classes<=4x2mods:chain', ('placed', 4, 2, style))
     for start in range(0, 160, 20):
         yield ('placed:classes<=5x2mods:cycle', ('placed5', start, 20))
     yield ('hidden-definer:classes<=3', ('hidden', 3))
